@@ -39,7 +39,7 @@ func init() {
 		Real:        []string{"app.LinkApplication (CreateBlock, PreRunBlock, CheckBlock, CommitBlock)", "app state processor / state transition", "state.StateDB in trie and kv mode", "vm/evm interpreter incl. token opcodes", "mempool (AddTx, Reap, Update)", "types transaction checks (CheckBasic/CheckState, UTXO commitment balance, ring signatures)", "blockchain.BlockStore", "utxo.UtxoStore", "txmgr", "consensus.BlockExecutor.ApplyBlock/validateBlock", "secp256k1"},
 		Stub:        []string{"consensus state machine (single-validator commit signed by the harness)", "storage engine (SimDB)", "libxcrypto (pure-Go model: group arithmetic real, range proof transparent)", "fee-distribution WASM contract not deployed (fees stay on the collector account)"},
 		Assumptions: []string{"the embedded EVM contracts behave as their 10-line models say when given ample gas (gas-tight calls follow the receipt)", "WASM contracts are exercised in C05 only (their effects are not modelled)", "hidden amounts are known to the generator because it created every output"},
-		QuickRuns:   240, QuickBudget: 55 * time.Second, ThoroughRuns: 12000, ThoroughBudget: 15 * time.Minute,
+		QuickRuns:   1600, QuickBudget: 55 * time.Second, ThoroughRuns: 60000, ThoroughBudget: 15 * time.Minute,
 		RunsPerProcess: 60, RunTimeout: 240 * time.Second,
 		Run: run,
 	})
@@ -54,10 +54,9 @@ type blockSample struct {
 }
 
 type sample struct {
-	Blocks  []blockSample     `json:"blocks"`
-	Totals  map[string]string `json:"totals"`
-	Tamper  []string          `json:"tamper,omitempty"`
-	Weights string            `json:"note,omitempty"`
+	Blocks []blockSample     `json:"blocks"`
+	Totals map[string]string `json:"totals"`
+	Tamper []string          `json:"tamper,omitempty"`
 }
 
 type rigState struct {
@@ -127,18 +126,20 @@ func runIn(c *kernel.Ctx) {
 		return r
 	}
 	rs.T, rs.K = open("trie", true), open("kv", false)
+	defer func() {
+		// the mempool has two routines behind one unbuffered quit channel
+		for pass := 0; pass < 2; pass++ {
+			for _, r := range []*txgen.Replica{rs.T, rs.K} {
+				if r != nil {
+					r.Chain.Close()
+				}
+			}
+			synctest.Wait()
+		}
+	}()
 	if rs.T == nil || rs.K == nil {
 		return
 	}
-	defer func() {
-		for _, r := range []*txgen.Replica{rs.T, rs.K} {
-			r.Chain.Close()
-		}
-		synctest.Wait()
-		for _, r := range []*txgen.Replica{rs.T, rs.K} {
-			r.Chain.Close()
-		}
-	}()
 	gen.Outputs = func(token common.Address, seq uint64) (*types.UTXOOutputData, error) {
 		return rs.T.Chain.UtxoStore.GetUtxoOutput(token, seq)
 	}
@@ -232,7 +233,15 @@ func (rs *rigState) commitItems(items []*txgen.Item, path string) bool {
 	block, parts, err := rs.T.Propose(bs)
 	if err != nil {
 		if pp, ok := err.(*txgen.ProposePanic); ok {
-			c.HarnessTrouble("generated block refused by PreRunBlock (%s): %v", describe(items), pp)
+			// find the first transaction the validity stage refuses
+			culprit := ""
+			for k := 1; k <= len(items) && path != "pool"; k++ {
+				if _, _, e := rs.T.Propose(txgen.BlockSpec{Explicit: true, Txs: txgen.Txs(items[:k]), Time: bs.Time}); e != nil {
+					culprit = fmt.Sprintf("; first refused: #%d %s [%s]", k-1, items[k-1].Note, items[k-1].Kind)
+					break
+				}
+			}
+			c.HarnessTrouble("generated block refused by PreRunBlock (%s)%s: %v", describe(items), culprit, pp)
 		} else {
 			c.HarnessTrouble("propose: %v", err)
 		}
@@ -403,7 +412,7 @@ func (rs *rigState) oracle(block *types.Block, receipts types.Receipts) bool {
 			if d.Sign() < 0 {
 				class = "destroyed"
 			}
-			c.Violate("conservation", "supply/"+class+"/"+kindsOf(rs.smp.Blocks[len(rs.smp.Blocks)-1]), "height %d token %s: all accounts %v + hidden %v = %v, expected genesis %v + issued %v - self-destructed %v = %v (diff %v)",
+			c.Violate("conservation", "supply/"+class, "height %d token %s: all accounts %v + hidden %v = %v, expected genesis %v + issued %v - self-destructed %v = %v (diff %v)",
 				h, tokName(t), nz(tot[t]), L.HiddenSupply(t), have, nz(rs.genesis[t]), nz(L.Issued[t]), nz(L.Destroyed[t]), want, d)
 			return false
 		}
@@ -434,7 +443,7 @@ func (rs *rigState) oracle(block *types.Block, receipts types.Receipts) bool {
 				}
 				c.Evals(1)
 				if got.Cmp(want) != 0 {
-					c.Violate("ledger", "account/"+rp.n+"/"+role(rs, a)+"/"+kindsOf(rs.smp.Blocks[len(rs.smp.Blocks)-1]), "height %d: %s replica holds %v of %s for %s %x, reference ledger says %v", h, rp.n, got, tokName(t), role(rs, a), a, want)
+					c.Violate("ledger", "account/"+rp.n+"/"+role(rs, a), "height %d: %s replica holds %v of %s for %s %x, reference ledger says %v", h, rp.n, got, tokName(t), role(rs, a), a, want)
 					return false
 				}
 			}
@@ -506,6 +515,3 @@ func role(rs *rigState, a common.Address) string {
 	}
 	return "other"
 }
-
-// kindsOf is stable key material for a violation found after a block.
-func kindsOf(b blockSample) string { return "block" }
